@@ -78,6 +78,35 @@ func main() {
 		}
 		return
 	}
+	if job.Mode == "together" {
+		// exactly what runner.go does: all converters of the run in one Parse + Generate
+		for _, v := range job.Variants {
+			func() {
+				defer func() {
+					if r := recover(); r != nil {
+						emit(Out{Variant: v.Name, Converter: "*", Stage: "together", Panic: fmt.Sprint(r) + "\n" + string(debug.Stack())})
+					}
+				}()
+				convs, err := config.Parse(&config.Raw{BuildTags: job.BuildTags, WorkDir: job.Dir, Converters: raws,
+					Global: config.RawLines{Lines: v.Lines, Location: "command line (-g, -global)"}, OuputBuildConstraint: job.Constraint})
+				if err != nil {
+					emit(Out{Variant: v.Name, Converter: "*", Stage: "config", Err: err.Error()})
+					return
+				}
+				files, err := generator.Generate(convs, generator.Config{BuildConstraint: job.Constraint})
+				if err != nil {
+					emit(Out{Variant: v.Name, Converter: "*", Stage: "generate", Err: err.Error(), NFiles: len(files)})
+					return
+				}
+				o := Out{Variant: v.Name, Converter: "*", OK: true, NFiles: len(files), Files: map[string]string{}}
+				for p, b := range files {
+					o.Files[p] = string(b)
+				}
+				emit(o)
+			}()
+		}
+		return
+	}
 	for _, v := range job.Variants {
 		global := config.RawLines{Lines: v.Lines, Location: "command line (-g, -global)"}
 		gen := func(name string, convs []*config.Converter) {
